@@ -37,12 +37,35 @@ def gen_msg(rng, ch, depth=2, with_expect=False):
             el += extra
         r = (content(el[:15], ch), "call", "call(%s,%s,%s,%s)" % (T(seq), T(("s", me)), T(a), tt))
     elif kind == 1:
-        seq, ct, me, a = rng.below(1000), rng.choice([0, 0, 3, 77]), rng.choice(KNOWN), mp.gen_value(rng, depth)
-        el = [4, seq, ct, ("s", me), a]
+        seq, ct, me, a = rng.below(1000), rng.choice([0, 0, 3, 77, 1, 1] + ([] if with_expect else [2])), rng.choice(KNOWN), mp.gen_value(rng, depth)
+        exp = None
+        wire = a
+        if ct == 1:
+            # a real gzip payload: intact, or broken in a way the gzip format itself detects (header, checksum, truncation),
+            # or not a byte string at all
+            import gzip as _gz
+            z = _gz.compress(mp.enc(a, mp.Chooser()), 6, mtime=0)
+            how = rng.below(8)
+            if how == 0:
+                z = z[: max(1, len(z) - 1 - rng.below(8))]; exp = "err:decode"
+            elif how == 1:
+                z = z[:-8] + bytes([z[-8] ^ 0x5a]) + z[-7:]; exp = "err:decode"
+            elif how == 2:
+                z = bytes([0x1f, 0x8c]) + z[2:]; exp = "err:decode"
+            elif how == 3:
+                z = rng.bytes(1 + rng.below(12)); exp = "err:decode"
+            if how == 4:
+                wire = rng.choice([7, ("s", b"not-bytes"), [1, 2]]); exp = "err:decode"
+            else:
+                wire = ("b", z)
+        elif ct == 2:
+            wire = ("b", rng.bytes(1 + rng.below(12)))      # msgpackzip refuses it (whether it does is the harness' oracle)
+            exp = "unspec"
+        el = [4, seq, ct, ("s", me), wire]
         if tags is not None:
             el.append(tags)
             el += extra
-        r = (content(el[:15], ch), "callc", "callc(%s,%s,%s,%s,%s)" % (T(seq), T(ct), T(("s", me)), T(a), tt))
+        r = (content(el[:15], ch), "callc", exp or "callc(%s,%s,%s,%s,%s)" % (T(seq), T(ct), T(("s", me)), T(a), tt))
     elif kind == 2:
         seq = rng.choice([7, 7, 8, 9, 12345])
         res = mp.gen_value(rng, depth)
